@@ -690,7 +690,7 @@ func c09TableReadOnly(w *World, r *Report) {
 								}
 							}
 						case *ssa.Call:
-							if c := x.Call.StaticCallee(); c != nil && c.Pkg == pk && c.Name() == "yangCardinality" {
+							if c := x.Call.StaticCallee(); c != nil && c.Pkg == pk && nm(c) == "yangCardinality" {
 								t = true
 							}
 						case *ssa.ChangeType:
@@ -911,13 +911,13 @@ func c09StatelessParse(w *World, r *Report) {
 		case *ssa.FieldAddr:
 			st, ok := x.X.Type().(*types.Pointer)
 			if ok {
-				if s2, ok := st.Elem().Underlying().(*types.Struct); ok && s2.Field(x.Field).Name() == "arg" {
+				if s2, ok := st.Elem().Underlying().(*types.Struct); ok && nm(s2.Field(x.Field)) == "arg" {
 					return true
 				}
 			}
 			return dependsOnText(x.X, d+1)
 		case *ssa.Field:
-			if s2, ok := x.X.Type().Underlying().(*types.Struct); ok && s2.Field(x.Field).Name() == "arg" {
+			if s2, ok := x.X.Type().Underlying().(*types.Struct); ok && nm(s2.Field(x.Field)) == "arg" {
 				return true
 			}
 			return dependsOnText(x.X, d+1)
@@ -936,7 +936,7 @@ func c09StatelessParse(w *World, r *Report) {
 		return false
 	}
 	for _, f := range allFuncs(sp) {
-		if f.Name() != "Parse" || f.Signature.Recv() == nil || f.Parent() != nil {
+		if nm(f) != "Parse" || f.Signature.Recv() == nil || f.Parent() != nil {
 			continue
 		}
 		if f.Signature.Results().Len() != 1 || f.Signature.Results().At(0).Type().String() != "error" {
@@ -1044,7 +1044,7 @@ func c09RevisionChain(w *World, r *Report) {
 			for _, ref := range *phi.Referrers() {
 				switch x := ref.(type) {
 				case *ssa.Call:
-					if x.Call.StaticCallee() != nil && (x.Call.StaticCallee().Name() == "After" || x.Call.StaticCallee().Name() == "Before" || x.Call.StaticCallee().Name() == "Equal") {
+					if x.Call.StaticCallee() != nil && (nm(x.Call.StaticCallee()) == "After" || nm(x.Call.StaticCallee()) == "Before" || nm(x.Call.StaticCallee()) == "Equal") {
 						compared = true
 					}
 				case *ssa.BinOp:
